@@ -369,9 +369,10 @@ def make_scheduler(name, cs, seed, p2e):
         if srch == "bo":
             return HyperbandScheduler(dict(cs), searcher="bayesopt", search_options=bo, **kw, **common)
         return HyperbandScheduler(dict(cs), searcher="random", **kw, **common)
-    if name == "pbt":
-        return PopulationBasedTraining(dict(cs), resource_attr=RES, max_t=MAX_T, population_size=3,
-                                       perturbation_interval=1, quantile_fraction=0.34, **common)
+    if name in ("pbt", "pbt-big"):
+        # (pbt-big: enough live trials for quantiles of several trials)
+        return PopulationBasedTraining(dict(cs), resource_attr=RES, max_t=MAX_T, population_size=3 if name == "pbt" else 8,
+                                       perturbation_interval=1, quantile_fraction=0.34 if name == "pbt" else 0.5, **common)
     if name == "sync-hb":
         return SynchronousGeometricHyperbandScheduler(dict(cs), searcher="random", resource_attr=RES,
                                                        max_resource_level=MAX_T, grace_period=1, reduction_factor=3,
@@ -468,6 +469,9 @@ def _run_dill_twin(spec):
                 rr = running[t]
                 base = random.Random(spec["seed"] * 7919 + t).randrange(0, 64) / 64.0
                 ev = ("result", t, rr, base + rng.randrange(-8, 9) / (64.0 * rr), rng.randrange(0, 64) / 64.0)
+                if spec.get("ties"):
+                    # metrics from a handful of values: several live trials with exactly equal scores
+                    ev = ("result", t, rr, rng.randrange(0, 3) / 4.0, rng.randrange(0, 2) / 2.0)
         else:
             ev = ("suggest", next_tid)
         if i % every == 0:
@@ -631,6 +635,11 @@ def gen_cases(rng, tier):
         yield {"scenario": "dill-twin", "sched": name, "space": space, "p2e": p2e, "seed": rng.randrange(10 ** 9),
                "n_events": (14 if bo else 40) if quick else (24 if bo else 120), "lookahead": 3 if bo else 6,
                "every": 2 if bo else 1, "n_workers": rng.randint(1, 4)}
+    # (c') PBT with many live trials and tied scores (the order among equal scores is part of what is continued)
+    for _ in range(6 if quick else 60):
+        space = S.gen_space(rng, finite=False, small=False, consts=True)
+        yield {"scenario": "dill-twin", "sched": "pbt-big", "space": space, "p2e": None, "seed": rng.randrange(10 ** 9),
+               "n_events": 90 if quick else 160, "lookahead": 8, "every": 3, "n_workers": rng.randint(5, 8), "ties": True}
     # (d) GP state codec on live states
     for _ in range(10 if quick else 80):
         finite = rng.random() < 0.5
